@@ -94,6 +94,17 @@ def check_ctor(ctx, rule, key, fid, pat, fields=None, adt=None, optional=False):
 # "the value a user configures is the value the operator acts on" - each entry is a necessary condition of the
 # property it is filed under: the rules on select/apply/mutate read `self.<field>`, these pin what the public
 # constructors put there.
+def _self_field(e, name):
+    while isinstance(e, tuple) and e[0] in ("ref", "deref"):
+        e = e[1]
+    if not (e[0] == "field" and e[2] == name):
+        return False
+    b = e[1]
+    while isinstance(b, tuple) and b[0] in ("ref", "deref"):
+        b = b[1]
+    return b == ("param", 1)
+
+
 def _t(key, fid, pat, fields=None, adt=None):
     return (key, fid, pat, fields, adt)
 
@@ -128,17 +139,26 @@ TABLES = {
         _t("with_scorer=IndividualGenerator(self,scorer)", "<GG as " + EC + "individual::ec::WithScorer>::with_scorer", Agg("IndividualGenerator::IndividualGenerator", Param(1), Param(2))),
         _t("EcIndividual::from((genome,results))=new(genome,results)", "<" + EC + "individual::ec::EcIndividual<G, R> as std::convert::From<(G, R)>>::from",
            Agg("EcIndividual::EcIndividual", Field(Param(1), 0), Field(Param(1), 1)), ("genome", "test_results"), EC + "individual::ec::EcIndividual"),
+        _t("with_scorer_fn=with_scorer(self,FnScorer(f))", EC + "individual::ec::WithScorer::with_scorer_fn", Call("WithScorer::with_scorer", Param(1), Agg("FnScorer::FnScorer", Param(2)), nargs=2)),
         _t("EcIndividual::new-stores-(genome,test_results)", EC + "individual::ec::EcIndividual::<G, R>::new", Agg("EcIndividual::EcIndividual", Param(1), Param(2)),
            ("genome", "test_results"), EC + "individual::ec::EcIndividual"),
     ],
     "C01": [
         _t("PushValue::new-stores-the-literal", "push::instruction::common::push_value::PushValue::<T>::new", Agg("PushValue::PushValue", Param(1))),
         _t("PrintString::new-stores-the-text", "push::instruction::printing::string::PrintString::new", Agg("PrintString::PrintString", Param(1))),
+        _t("stdout_string-is-the-output-buffer-as-text", "push::push_vm::push_state::PushState::stdout_string",
+           Call("String::from_utf8", Call("Cursor::into_inner", Call("Clone::clone", lambda e: _self_field(e, "stdout"), nargs=1), nargs=1), nargs=1)),
         _t("PushProgram::from(instruction)=Instruction(into)", "<push::push_vm::program::PushProgram as std::convert::From<T>>::from",
            Agg("PushProgram::Instruction", Call("Into::into", Param(1), nargs=1))),
     ],
+    "C04": [
+        _t("Stack::default=unbounded-empty-stack", "<push::push_vm::stack::Stack<T> as std::default::Default>::default",
+           Agg("Stack::Stack", lambda e: e[0] == "const" and "usize" in str(e[2]) and str(e[2]).endswith("MAX"), Call("Default::default", nargs=0)),
+           ("max_stack_size", "values"), "push::push_vm::stack::Stack"),
+    ],
     "C05": [
         _t("Plushy::new-collects-the-genes-in-order", "push::genome::plushy::Plushy::new", Agg("Plushy::Plushy", Call("Iterator::collect", Call("IntoIterator::into_iter", Param(1), nargs=1), nargs=1))),
+        _t("Plushy::get_genes-returns-a-copy-of-the-genes", "push::genome::plushy::Plushy::get_genes", Call("Clone::clone", lambda e: _self_field(e, "genes"), nargs=1)),
         _t("PushGene::from(instruction)=Instruction(into)", "<push::genome::plushy::PushGene as std::convert::From<T>>::from", Agg("PushGene::Instruction", Call("Into::into", Param(1), nargs=1))),
     ],
 }
